@@ -1,24 +1,232 @@
 package main
 
 import (
+	"encoding/json"
+	"flag"
 	"fmt"
 	"os"
+	"path/filepath"
+	"sort"
+	"strings"
+	"sync"
+	"time"
 
-	"golang.org/x/tools/go/packages"
 	"golang.org/x/tools/go/ssa"
-	"golang.org/x/tools/go/ssa/ssautil"
 )
 
-func main() {
-	cfg := &packages.Config{Mode: packages.LoadAllSyntax, Dir: "/repo", BuildFlags: []string{"-tags=verif"}}
-	pkgs, err := packages.Load(cfg, ".", "./internal/quicvarint", "./internal/helper", "./dicttls")
+type OblResult struct {
+	O      *Obligation
+	R      SolverResult
+	OK     bool
+	Script string
+}
+
+func buildScript(fr *FuncResult, o *Obligation) string {
+	var b strings.Builder
+	b.WriteString("(set-option :produce-models true)\n")
+	for _, d := range fr.Decls {
+		b.WriteString(d)
+		b.WriteByte('\n')
+	}
+	for _, a := range fr.Axioms {
+		b.WriteString(a)
+		b.WriteByte('\n')
+	}
+	b.WriteString("(assert " + o.Guard + ")\n")
+	if o.Cover {
+		b.WriteString("(assert " + o.Cond + ")\n")
+	} else {
+		b.WriteString("(assert (not " + o.Cond + "))\n")
+	}
+	return b.String()
+}
+
+func discharge(frs []*FuncResult, timeout time.Duration, coverToo bool) []*OblResult {
+	var out []*OblResult
+	var mu sync.Mutex
+	var wg sync.WaitGroup
+	for _, fr := range frs {
+		for _, o := range fr.Obls {
+			if o.Cover && !coverToo {
+				continue
+			}
+			fr, o := fr, o
+			if !o.Cover && o.Cond == "true" {
+				out = append(out, &OblResult{O: o, R: SolverResult{Status: "unsat", Solver: "trivial"}, OK: true})
+				continue
+			}
+			wg.Add(1)
+			go func() {
+				defer wg.Done()
+				script := buildScript(fr, o)
+				to := timeout
+				if o.Cover && to > 5*time.Second {
+					to = 5 * time.Second
+				}
+				r := Solve(script, to, false)
+				ok := r.Status == "unsat"
+				if o.Cover {
+					ok = r.Status != "unsat" // sat or unknown: not provably vacuous
+				}
+				mu.Lock()
+				out = append(out, &OblResult{O: o, R: r, OK: ok, Script: script})
+				mu.Unlock()
+			}()
+		}
+	}
+	wg.Wait()
+	sort.Slice(out, func(i, j int) bool { return out[i].O.Name < out[j].O.Name })
+	return out
+}
+
+// selectFuncs returns the contracts (non-trusted, non-interface) to verify, filtered.
+func selectFuncs(g *Global, prop, fnFilter string) ([]*Contract, []string) {
+	var cs []*Contract
+	var missing []string
+	for _, k := range g.contracts.SortedKeys() {
+		c := g.contracts.Funcs[k]
+		if c.Trusted || c.Interface {
+			continue
+		}
+		if prop != "" {
+			has := false
+			for _, p := range c.Props {
+				if p == prop {
+					has = true
+				}
+			}
+			if !has {
+				continue
+			}
+		}
+		if fnFilter != "" && !strings.Contains(k, fnFilter) {
+			continue
+		}
+		if _, ok := g.funcs[k]; !ok {
+			missing = append(missing, k)
+			continue
+		}
+		cs = append(cs, c)
+	}
+	return cs, missing
+}
+
+func generateAll(g *Global, cs []*Contract) []*FuncResult {
+	res := make([]*FuncResult, len(cs))
+	// generation is sequential: go/types objects are shared and the generator is fast
+	for i, c := range cs {
+		var fn *ssa.Function = g.funcs[c.Key]
+		res[i] = GenerateFunc(g, fn, c)
+		for _, o := range res[i].Obls {
+			o.Props = c.Props
+		}
+	}
+	return res
+}
+
+func cmdVerify(args []string) int {
+	fs := flag.NewFlagSet("verify", flag.ExitOnError)
+	prop := fs.String("prop", "", "property id")
+	fnf := fs.String("fn", "", "function key substring")
+	to := fs.Int("timeout", 10, "solver timeout (s)")
+	dump := fs.String("dump", "", "directory to dump failing scripts")
+	dumpAll := fs.Bool("dumpall", false, "dump every script")
+	repo := fs.String("repo", "/repo", "repository")
+	verbose := fs.Bool("v", false, "list every obligation")
+	fs.Parse(args)
+	t0 := time.Now()
+	g, err := LoadGlobal(*repo, nil)
 	if err != nil {
-		fmt.Println(err)
+		fmt.Fprintln(os.Stderr, "load:", err)
+		return 2
+	}
+	fmt.Fprintf(os.Stderr, "loaded in %.1fs: %d contracts\n", time.Since(t0).Seconds(), len(g.contracts.Funcs))
+	cs, missing := selectFuncs(g, *prop, *fnf)
+	for _, m := range missing {
+		fmt.Printf("MISSING contract target %s\n", m)
+	}
+	frs := generateAll(g, cs)
+	bad := len(missing)
+	for _, fr := range frs {
+		if fr.Err != nil {
+			fmt.Printf("ERROR %v\n", fr.Err)
+			bad++
+		}
+		for _, u := range fr.Unsupported {
+			fmt.Printf("UNSUPPORTED %s: %s\n", fr.Key, u)
+			bad++
+		}
+	}
+	results := discharge(frs, time.Duration(*to)*time.Second, true)
+	nOK := 0
+	for _, r := range results {
+		if r.OK {
+			nOK++
+			if *verbose {
+				fmt.Printf("ok    %-80s %s %.2fs\n", r.O.Name, r.R.Solver, r.R.Time)
+			}
+		} else {
+			bad++
+			fmt.Printf("FAIL  %-80s %s [%s] %s  -- %s\n", r.O.Name, r.R.Status, r.R.Solver, r.O.Pos, r.O.Descr)
+			if r.R.Status == "error" || strings.Contains(r.R.Output, "error") {
+				fmt.Printf("      %s\n", firstLines(r.R.Output, 4))
+			}
+		}
+		if *dump != "" && (!r.OK || *dumpAll) && r.Script != "" {
+			os.MkdirAll(*dump, 0o755)
+			os.WriteFile(filepath.Join(*dump, sanitize(r.O.Name)+".smt2"), []byte(r.Script+"(check-sat)\n(get-model)\n"), 0o644)
+		}
+	}
+	fmt.Printf("%d functions, %d obligations, %d ok, %d problems, %.1fs\n", len(frs), len(results), nOK, bad, time.Since(t0).Seconds())
+	if bad > 0 {
+		return 1
+	}
+	return 0
+}
+
+func main() {
+	if len(os.Args) < 2 {
+		fmt.Fprintln(os.Stderr, "usage: govc verify|check|ssa ...")
 		os.Exit(2)
 	}
-	prog, spkgs := ssautil.AllPackages(pkgs, ssa.GlobalDebug)
-	prog.Build()
-	for _, p := range spkgs {
-		fmt.Println(p.Pkg.Path(), len(p.Members))
+	switch os.Args[1] {
+	case "verify":
+		os.Exit(cmdVerify(os.Args[2:]))
+	case "check":
+		os.Exit(cmdCheck(os.Args[2:]))
+	case "ssa":
+		g, err := LoadGlobal("/repo", nil)
+		if err != nil {
+			fmt.Fprintln(os.Stderr, err)
+			os.Exit(2)
+		}
+		for _, k := range os.Args[2:] {
+			fn, ok := g.funcs[k]
+			if !ok {
+				fmt.Println("no function", k)
+				continue
+			}
+			fn.WriteTo(os.Stdout)
+		}
+	case "keys":
+		g, err := LoadGlobal("/repo", nil)
+		if err != nil {
+			fmt.Fprintln(os.Stderr, err)
+			os.Exit(2)
+		}
+		var ks []string
+		for k, fn := range g.funcs {
+			if g.isModuleFn(fn) {
+				ks = append(ks, k)
+			}
+		}
+		sort.Strings(ks)
+		for _, k := range ks {
+			fmt.Println(k)
+		}
+	default:
+		_ = json.Marshal
+		fmt.Fprintln(os.Stderr, "unknown command")
+		os.Exit(2)
 	}
 }
